@@ -324,24 +324,24 @@ package hclsyntax
 //@ trusted
 //@ assigns nothing
 // Every mark on either operand's value is on the result, on every path that returns an operator
-// result (the error paths return the bare unknown value of the operator's type together with
-// error diagnostics).
+// result (the error paths return the bare unknown value of the operator's type, and then the
+// diagnostics contain an error).
 // verif:func (*BinaryOpExpr).Value
 //@ nosafety
 //@ requires e.Op != nil
-//@ ensures marks: forall k iface :: { marked(ret0, k) } marked(exprVal(old(e.LHS), ctx), k) || marked(exprVal(old(e.RHS), ctx), k) ==> marked(ret0, k) || bareUnknown(ret0)
+//@ ensures marks: forall k iface :: { marked(ret0, k) } marked(exprVal(old(e.LHS), ctx), k) || marked(exprVal(old(e.RHS), ctx), k) ==> marked(ret0, k) || (bareUnknown(ret0) && hasErr(ret1))
 
 // The conditional operator: the marks of the condition and of both results are on the result
 // (the error paths return cty.DynamicVal or a bare unknown together with error diagnostics).
 // verif:func (*ConditionalExpr).Value
 //@ nosafety
-//@ ensures marks: forall k iface :: { marked(ret0, k) } marked(exprVal(old(e.Condition), ctx), k) || marked(exprVal(old(e.TrueResult), ctx), k) || marked(exprVal(old(e.FalseResult), ctx), k) ==> marked(ret0, k) || bareUnknown(ret0) || ret0 == cty.DynamicVal
+//@ ensures marks: forall k iface :: { marked(ret0, k) } marked(exprVal(old(e.Condition), ctx), k) || marked(exprVal(old(e.TrueResult), ctx), k) || marked(exprVal(old(e.FalseResult), ctx), k) ==> marked(ret0, k) || ((bareUnknown(ret0) || ret0 == cty.DynamicVal) && hasErr(ret1))
 
 // The splat operator: the marks of the source value are on the result (error paths return
 // cty.DynamicVal together with error diagnostics).
 // verif:func (*SplatExpr).Value
 //@ nosafety
-//@ ensures marks: forall k iface :: { marked(ret0, k) } marked(exprVal(old(e.Source), ctx), k) ==> marked(ret0, k) || ret0 == cty.DynamicVal
+//@ ensures marks: forall k iface :: { marked(ret0, k) } marked(exprVal(old(e.Source), ctx), k) ==> marked(ret0, k) || (ret0 == cty.DynamicVal && hasErr(ret1))
 
 // Templates: the marks of every interpolated part that is not null are on the result (a null part
 // is an error and the part is skipped).
